@@ -1,271 +1,15 @@
 ------------------------------ MODULE Families ------------------------------
 (***************************************************************************)
-(* The bounded families of grammars and inputs that TLC enumerates, and the  *)
-(* behaviour that evaluates the reference semantics on each of them and      *)
-(* emits the expected outcomes for replay into the implementation.           *)
+(* The behaviour that evaluates the reference semantics (PestSem) on every   *)
+(* grammar of a bounded family (FamilyDefs) and emits the expected outcomes  *)
+(* for replay into the implementation.                                      *)
 (*                                                                         *)
 (* One initial state per grammar; one Run step evaluates Outcome for every    *)
 (* input and start position; invariants check the reference's own           *)
 (* properties on every case; Emit prints one JSON line per grammar:          *)
-(*   [g |-> grammar, rule |-> start rule, cases |-> << <<input, k, outcome>> >>] *)
+(*   [g |-> grammar, cases |-> << <<input, k, outcome>> >>]                  *)
 (***************************************************************************)
-EXTENDS PestSem, Json, Randomization, SequencesExt
-
-CONSTANTS
-  Family,     \* which family (string)
-  MaxLen,     \* inputs: all strings over the family's alphabet up to this length
-  Starts,     \* "zero": start_pos = 0 only;  "all": every 0..Len(input)
-  Sample      \* 0 = whole family; n > 0 = a pseudo-random subset of n grammars (TLC -seed)
-
-a == 97   b == 98   A == 65   sp == 32   lt == 60   gt == 62   one == 49   nl == 10   c == 99
-
------------------------------------------------------------------------------
-\* Syntactic "must consume" (conservative): the domain of repetition bodies (WellFormed)
-RECURSIVE Prog(_)
-Prog(e) ==
-  CASE e.k \in {"str", "istr"} -> Len(e.s) >= 1
-    [] e.k \in {"range", "cls", "any"} -> TRUE
-    [] e.k = "ref" -> TRUE            \* every helper rule of these families consumes
-    [] e.k = "seq" -> \E i \in 1..Len(e.es) : Prog(e.es[i])
-    [] e.k = "alt" -> \A i \in 1..Len(e.es) : Prog(e.es[i])
-    [] e.k \in {"plus", "exact", "min", "push", "tag"} -> Prog(e.e)
-    [] e.k = "minmax" -> e.m >= 1 /\ Prog(e.e)
-    [] OTHER -> FALSE
-
-Reps(S)  == LET P == {x \in S : Prog(x)}
-            IN {Star(x) : x \in P} \cup {Plus(x) : x \in P} \cup {Exact(x, 2) : x \in P}
-               \cup {MinR(x, 2) : x \in P} \cup {MaxR(x, 2) : x \in P} \cup {MinMax(x, 1, 2) : x \in P}
-Preds(S) == {AndP(x) : x \in S} \cup {NotP(x) : x \in S}
-Un(S)    == {Opt(x) : x \in S} \cup Reps(S) \cup Preds(S)
-Bin(S, T) == {SeqE(<<x, y>>) : x \in S, y \in T} \cup {AltE(<<x, y>>) : x \in S, y \in T}
-Tri(S)   == {SeqE(<<x, y, z>>) : x \in S, y \in S, z \in S} \cup {AltE(<<x, y, z>>) : x \in S, y \in S, z \in S}
-
-Strings(alpha, n) == UNION {[1..m -> alpha] : m \in 0..n}
-
-Pick(S) == IF Sample = 0 \/ Sample >= Cardinality(S) THEN S ELSE RandomSubset(Sample, S)
-
------------------------------------------------------------------------------
-\* ---- family "core": C03 (no trivia, no stack) ------------------------------
-\*   r = { BODY }      s = m{ "a" ~ "b"? }  (m normal or silent)     t = { "a" ~ t | "b" }
-\*   w = _{ s ~ "b" ~ "b" }   (a silent rule that can fail AFTER an inner rule produced a pair)
-SBody == SeqE(<<Str(<<a>>), Opt(Str(<<b>>))>>)
-TBody == AltE(<<SeqE(<<Str(<<a>>), Ref("t")>>), Str(<<b>>)>>)
-
-WBody == SeqE(<<Ref("s"), Str(<<b>>), Str(<<b>>)>>)
-CoreAtoms  == {Str(<<a>>), Str(<<b>>), Str(<<a, b>>), IStr(<<a>>), Rng(a, b), AnyC, Cls("ASCII_ALPHA_UPPER"),
-               Soi, Eoi, Ref("s"), Ref("t"), Ref("w")}
-CoreAtomsS == {Str(<<a>>), Str(<<a, b>>), AnyC, Ref("s"), Ref("w")}          \* reduced set for the third level
-CoreT2(lz) == CoreAtoms \cup Un(CoreAtoms) \cup Bin(CoreAtoms, CoreAtoms)
-CoreT3(lz) == Un(CoreT2(0)) \cup Bin(CoreT2(0), CoreAtomsS) \cup Bin(CoreAtomsS, CoreT2(0)) \cup Tri(CoreAtomsS)
-
-CoreG(body, sm) == [r |-> Rule("", body), s |-> Rule(sm, SBody), t |-> Rule("", TBody), w |-> Rule("_", WBody)]
-CoreAlpha == {a, b, A}
-
-FamCore2(lz) == {CoreG(x, sm) : x \in CoreT2(0), sm \in {"", "_"}}
-FamCore3(lz) == {CoreG(x, sm) : x \in CoreT3(0) \ CoreT2(0), sm \in {"", "_"}}
-
-\* ---- family "trivia": C04 ---------------------------------------------------
-\*   r = m0{ BODY }   s = m1{ "a" ~ u }   u = m2{ "a" ~ "a"? }   + WHITESPACE / COMMENT per config
-WsBody  == Str(<<sp>>)
-CmBody  == SeqE(<<Str(<<lt>>), Str(<<gt>>)>>)                  \* two-element body: "<" alone is unterminated
-Ws2Body == SeqE(<<Str(<<sp>>), Opt(Str(<<sp>>))>>)
-TriviaCfgs == {"ws", "WS", "cm", "CM", "ws+cm", "WS+cm", "ws2+CM"}    \* upper case = non-silent
-TrivRules(cfg) ==
-  CASE cfg = "none"   -> <<>>
-    [] cfg = "ws"     -> [WHITESPACE |-> Rule("_", WsBody)]
-    [] cfg = "WS"     -> [WHITESPACE |-> Rule("", WsBody)]
-    [] cfg = "cm"     -> [COMMENT |-> Rule("_", CmBody)]
-    [] cfg = "CM"     -> [COMMENT |-> Rule("", CmBody)]
-    [] cfg = "ws+cm"  -> [WHITESPACE |-> Rule("_", WsBody), COMMENT |-> Rule("_", CmBody)]
-    [] cfg = "WS+cm"  -> [WHITESPACE |-> Rule("", WsBody), COMMENT |-> Rule("_", CmBody)]
-    [] cfg = "ws2+CM" -> [WHITESPACE |-> Rule("_", Ws2Body), COMMENT |-> Rule("", CmBody)]
-
-Merge(f, h) == [x \in DOMAIN f \cup DOMAIN h |-> IF x \in DOMAIN f THEN f[x] ELSE h[x]]
-
-TrAtoms == {Str(<<a>>), Ref("s"), AnyC}
-TrT1 == TrAtoms \cup {Eoi}
-TrT2(lz) == TrT1 \cup Un(TrAtoms) \cup Bin(TrT1, TrT1)
-TrT3(lz) == Un(TrT2(0)) \cup Bin(TrT2(0), {Str(<<a>>), Ref("s")}) \cup Bin({Str(<<a>>), Ref("s")}, TrT2(0))
-Mods == {"", "_", "@", "$", "!"}
-TrG(body, m0, m1, m2, cfg) ==
-  Merge([r |-> Rule(m0, body), s |-> Rule(m1, SeqE(<<Str(<<a>>), Ref("u")>>)),
-         u |-> Rule(m2, SeqE(<<Str(<<a>>), Opt(Str(<<a>>))>>))], TrivRules(cfg))
-TrAlpha == {a, sp, lt, gt}
-
-\* every body x every trivia config, plain modifiers
-FamTrivia2(lz) == {TrG(x, "", "", "", cfg) : x \in TrT2(0), cfg \in TriviaCfgs}
-FamTrivia3(lz) == {TrG(x, "", "", "", cfg) : x \in TrT3(0) \ TrT2(0), cfg \in {"ws", "WS+cm", "CM"}}
-\* every modifier triple x a spanning set of bodies x two trivia configs
-ModBodies(lz) == {Ref("s"), SeqE(<<Str(<<a>>), Ref("s")>>), SeqE(<<Ref("s"), Str(<<a>>)>>), Star(Ref("s")), Plus(Str(<<a>>)),
-              SeqE(<<Ref("s"), Eoi>>), MaxR(Ref("s"), 2), SeqE(<<Str(<<a>>), Star(Str(<<a>>))>>), AltE(<<Ref("u"), Ref("s")>>),
-              SeqE(<<Ref("u"), Ref("WHITESPACE"), Ref("u")>>), SeqE(<<Ref("s"), Ref("u")>>), SeqE(<<Ref("s"), Ref("u"), Ref("s")>>),
-              Star(AltE(<<Ref("s"), Ref("u")>>))}
-FamMods(lz) == {TrG(x, m0, m1, m2, cfg) : x \in ModBodies(0), m0 \in Mods, m1 \in Mods, m2 \in Mods, cfg \in {"WS", "ws+cm"}}
-
-\* ---- family "stack": C05 ------------------------------------------------------
-\*   r = { SETUP ~ MID ~ PROBE }   stack operations inside every backtracking context
-StkOps  == {PushE(Str(<<a>>)), PushE(Rng(a, b)), PushLit(<<b>>), PeekT, PopT, DropT, PeekAllT, PopAllT,
-            PeekSl(FALSE, 0, FALSE, 0), PeekSl(TRUE, 0, TRUE, 1), PeekSl(TRUE, -1, FALSE, 0)}
-StkAtoms == StkOps \cup {Str(<<a>>), Str(<<b>>)}
-StkSeq2(lz) == {SeqE(<<x, y>>) : x \in StkOps, y \in StkAtoms} \cup {SeqE(<<Str(<<a>>), y>>) : y \in StkOps}
-StkBase(lz) == StkOps \cup StkSeq2(0)
-StkCtx(x) == {x, Opt(x), AndP(x), NotP(x), AltE(<<x, Str(<<a>>)>>), AltE(<<SeqE(<<x, Str(<<b>>)>>), x>>),
-              Opt(SeqE(<<x, Str(<<b>>)>>)), NotP(NotP(x)), AndP(SeqE(<<x, Str(<<b>>)>>))}
-StkRep(x) == IF Prog(x) THEN {Star(x), Plus(x), MaxR(x, 2), Star(SeqE(<<x, Str(<<b>>)>>))} ELSE {}
-StkMid(lz) == UNION {StkCtx(x) \cup StkRep(x) : x \in StkBase(0)}
-StkSetups == {PushLit(<<a>>), SeqE(<<PushLit(<<a>>), PushE(AnyC)>>), Opt(PushE(Str(<<b>>)))}
-StkProbes == {PeekAllT, SeqE(<<PopT, Opt(PopT)>>), SeqE(<<DropT, NotP(DropT)>>), Star(SeqE(<<AnyC, Opt(PeekT)>>))}
-StkG(su, mid, pr) == [r |-> Rule("", SeqE(<<su, mid, pr>>))]
-StkAlpha == {a, b}
-FamStack(lz) == {StkG(su, mid, pr) : su \in StkSetups, mid \in StkMid(0), pr \in StkProbes}
-
-\* "stack1": every stack terminal ALONE in every context (small: enumerated completely, printed in both styles)
-Stk1Mid(lz) == UNION {StkCtx(x) \cup StkRep(x) : x \in StkOps}
-\* "stackdeep": two backtracking points nested - an inner construct that COMMITS stack changes inside an outer one that
-\* then fails (or is a predicate), followed by a probe;  r = { SETUP ~ OUTER(x1 ~ x2 ~ INNER(x3 ~ x4)) ~ PROBE }
-DeepOps == {DropT, PopT, PushLit(<<c>>), PushE(Str(<<a>>)), PeekT}
-DeepInner(x, y, n) == CASE n = 1 -> Opt(SeqE(<<x, y>>)) [] n = 2 -> AltE(<<SeqE(<<x, y>>), Str(<<b>>)>>)
-                        [] n = 3 -> AndP(SeqE(<<x, y>>)) [] n = 4 -> Star(SeqE(<<Str(<<a>>), x, y>>))
-DeepOuter(body, pr, n) == CASE n = 1 -> SeqE(<<AltE(<<SeqE(<<body, Str(<<c, c>>)>>), Str(<<>>)>>), pr>>)       \* alternative fails after the commit
-                            [] n = 2 -> SeqE(<<Opt(SeqE(<<body, Str(<<c, c>>)>>)), pr>>)
-                            [] n = 3 -> SeqE(<<NotP(NotP(body)), pr>>)
-                            [] n = 4 -> SeqE(<<AndP(body), pr>>)
-DeepSetups == {SeqE(<<PushLit(<<a>>), PushLit(<<b>>)>>), SeqE(<<PushE(AnyC), PushLit(<<b>>), PushLit(<<a>>)>>)}
-DeepProbes == {PeekAllT, SeqE(<<Star(SeqE(<<NotP(PeekAllT), AnyC>>)), PeekAllT>>), SeqE(<<DropT, PeekT>>)}
-FamStackDeep(lz) == {[r |-> Rule("", SeqE(<<su, DeepOuter(SeqE(<<x1, x2, DeepInner(x3, x4, ni)>>), pr, no)>>))]
-                   : x1 \in DeepOps, x2 \in DeepOps, x3 \in DeepOps, x4 \in DeepOps, su \in DeepSetups, pr \in DeepProbes, ni \in 1..4, no \in 1..4}
-
-\* a PEEK[a..b] whose indices can fall outside the stack is outside the checked domain:
-\* these families only use [..], [0..1] after a guaranteed push, [-1..] after a guaranteed push.
-\* (the first setup alternatives push at least one entry; Opt(PUSH("b")) may leave it empty, so
-\*  slices with explicit indices are only combined with the guaranteed setups)
-RECURSIVE HasIdxSlice(_)
-HasIdxSlice(e) ==
-  CASE e.k = "peekslice" -> e.ha \/ e.hb
-    [] e.k \in {"seq", "alt"} -> \E i \in 1..Len(e.es) : HasIdxSlice(e.es[i])
-    [] e.k \in {"opt", "star", "plus", "exact", "min", "max", "minmax", "and", "not", "push", "tag"} -> HasIdxSlice(e.e)
-    [] OTHER -> FALSE
-FamStackWF(lz) == {g \in FamStack(0) : ~(g.r.body.es[1].k = "opt" /\ HasIdxSlice(g.r.body.es[2]))}
-FamStack1(lz) == {g \in {StkG(su, mid, pr) : su \in StkSetups, mid \in Stk1Mid(0), pr \in StkProbes} : ~(g.r.body.es[1].k = "opt" /\ HasIdxSlice(g.r.body.es[2]))}
-
-\* ---- family "tags": C01 (tags are compared between interpreter and generated code) ----
-\*   r = { BODY }   s = { "a" ~ "b"? }   v = _{ #t3 = s }     + silent WHITESPACE
-TagAtoms == {Tag("t1", Ref("s")), Tag("t2", SeqE(<<Ref("s"), Str(<<b>>)>>)), Tag("t1", AltE(<<Ref("t"), Ref("s")>>)),
-             Tag("t2", Ref("v")), Ref("s"), Ref("v"), Str(<<a>>)}
-TagT2(lz) == TagAtoms \cup Un(TagAtoms) \cup Bin(TagAtoms, TagAtoms)
-TagT3(lz) == {Tag("t4", SeqE(<<x, Ref("s")>>)) : x \in Un(TagAtoms)} \cup {Tag("t4", AltE(<<x, y>>)) : x \in TagAtoms, y \in Un(TagAtoms)}
-         \cup {Opt(x) : x \in Bin(TagAtoms, TagAtoms)} \cup {Star(x) : x \in {y \in Bin(TagAtoms, TagAtoms) : Prog(y)}}
-TagG(body, ws) == Merge([r |-> Rule("", body), s |-> Rule("", SBody), t |-> Rule("", TBody), v |-> Rule("_", Tag("t3", Ref("s")))],
-                        IF ws THEN TrivRules("ws") ELSE <<>>)
-FamTags(lz) == {TagG(x, ws) : x \in TagT2(0) \cup TagT3(0), ws \in BOOLEAN}
-
------------------------------------------------------------------------------
-\* ---- family "opt": C02, aimed at each optimizer pass ---------------------------------
-\*   r = m{ BODY }   q = qm{ "b" | "ab" }   s = { "a" ~ "b"? }    + trivia per config
-\* squash_choice: choices of literals / insensitive literals / ranges / classes, every order, shared prefixes
-SqAtoms  == {Str(<<a>>), Str(<<b>>), Str(<<a, b>>), Str(<<b, a>>), IStr(<<a>>), IStr(<<a, b>>), IStr(<<a, b, a>>), Str(<<a, b, a>>), Rng(a, b),
-             Cls("ASCII_ALPHA_UPPER"), Ref("q"), Str(<<>>), IStr(<<>>)}
-SqAtomsS == {Str(<<a>>), Str(<<a, b>>), IStr(<<b>>), Rng(a, a), IStr(<<a, b, a>>), Str(<<>>)}
-SqChoices(lz) == {AltE(<<x, y>>) : x \in SqAtoms, y \in SqAtoms} \cup {AltE(<<x, y, z>>) : x \in SqAtomsS, y \in SqAtomsS, z \in SqAtomsS}
-             \cup {AltE(<<x, AltE(<<y, z>>)>>) : x \in SqAtomsS, y \in SqAtomsS, z \in {Str(<<b>>), Ref("q")}}
-SqBodies(lz) == UNION {{ch, SeqE(<<ch, Str(<<b>>)>>), SeqE(<<ch, Eoi>>)} \cup (IF Prog(ch) THEN {Star(ch), SeqE(<<Plus(ch), Str(<<a>>)>>)} ELSE {})
-                         : ch \in SqChoices(0)}
-\* skip: (!(x | y) ~ ANY)* and near misses
-SkTargets == {Str(<<b>>), AltE(<<Str(<<b>>), Str(<<a, b>>)>>), Ref("q"), AltE(<<Ref("q"), Str(<<sp>>)>>), AltE(<<Str(<<b>>), Rng(a, a)>>),
-              Ref("k"), Ref("z"), AltE(<<Ref("k"), Str(<<A>>)>>),
-              SeqE(<<Str(<<a>>), Str(<<b>>)>>), AltE(<<Str(<<b>>), AltE(<<Str(<<a, a>>), Str(<<sp>>)>>)>>)}
-SkForms(x) == {Star(SeqE(<<NotP(x), AnyC>>)), Star(SeqE(<<NotP(x), AnyC, Opt(Str(<<a>>))>>)), Plus(SeqE(<<NotP(x), AnyC>>)),
-               Star(SeqE(<<NotP(x), Rng(a, b)>>))}
-SkBodies(lz) == UNION {{f, SeqE(<<f, Opt(Str(<<b>>))>>), SeqE(<<Str(<<a>>), f, Eoi>>), SeqE(<<f, Ref("s")>>)} : f \in UNION {SkForms(x) : x \in SkTargets}}
-\* inline silent / inline built-in / unroll
-InlBodies(lz) == {AltE(<<Str(<<a>>), Ref("q2")>>), AltE(<<Ref("q2"), Str(<<a, b>>)>>), Star(AltE(<<Str(<<a>>), Ref("q2")>>)), Tag("t1", Ref("q2")),
-              SeqE(<<Tag("t2", Ref("q2")), Ref("q2")>>), SeqE(<<Ref("WHITESPACE"), Ref("s")>>), Plus(Ref("COMMENT")), SeqE(<<Str(<<a>>), Ref("COMMENT"), Str(<<a>>)>>),
-              Ref("q"), SeqE(<<Ref("q"), Ref("q")>>), Star(Ref("q")), NotP(Ref("q")), SeqE(<<Ref("WHITESPACE"), Ref("q")>>), Plus(Ref("q")), MaxR(Ref("q"), 2),
-              PushE(Ref("q")), SeqE(<<PushE(Ref("q")), PopT>>), Tag("t1", Ref("q")), AltE(<<Ref("q"), Ref("s")>>), MinR(Cls("ASCII_ALPHA_LOWER"), 2),
-              SeqE(<<Cls("ASCII_HEX_DIGIT"), Cls("ASCII_ALPHANUMERIC")>>), AltE(<<Cls("ASCII_DIGIT"), Cls("ASCII_ALPHA")>>), SeqE(<<AnyC, Soi>>),
-              Exact(AltE(<<Str(<<a>>), Ref("q")>>), 2), MinMax(Ref("s"), 1, 2), SeqE(<<Plus(Str(<<a>>)), Str(<<b>>)>>)}
-OptTriv(cfg) ==
-  CASE cfg = "none" -> <<>>
-    [] cfg = "ws"   -> [WHITESPACE |-> Rule("_", Str(<<sp>>))]
-    [] cfg = "ws|"  -> [WHITESPACE |-> Rule("_", AltE(<<Str(<<sp>>), Str(<<b, b>>)>>))]      \* fused into SKIP
-    [] cfg = "WS|"  -> [WHITESPACE |-> Rule("", AltE(<<Str(<<sp>>), Str(<<b, b>>)>>))]
-    [] cfg = "cm"   -> [COMMENT |-> Rule("_", SeqE(<<Str(<<sp>>), Opt(Str(<<sp>>))>>))]        \* fused into SKIP
-    [] cfg = "ws+cm" -> [WHITESPACE |-> Rule("_", Str(<<sp>>)), COMMENT |-> Rule("_", Str(<<b, b>>))]
-    [] cfg = "ws2"  -> [WHITESPACE |-> Rule("_", AltE(<<SeqE(<<Str(<<b>>), Str(<<b>>)>>), Str(<<sp>>)>>))]   \* atomicity of the body matters
-    [] cfg = "cm2"  -> [WHITESPACE |-> Rule("_", Str(<<sp>>)), COMMENT |-> Rule("_", SeqE(<<Str(<<b>>), Str(<<b>>)>>))]
-OptTrivs == {"none", "ws", "ws|", "WS|", "cm", "ws+cm", "ws2", "cm2"}
-QBody == AltE(<<Str(<<b>>), Str(<<a, b>>)>>)
-\* k (before r) and z (after r): rules that are themselves the skip idiom; q2: a silent choice with a rule alternative
-KBody == SeqE(<<Star(SeqE(<<NotP(Str(<<b>>)), AnyC>>)), Opt(Str(<<b>>))>>)
-OptG(body, m, qm, cfg) == Merge([r |-> Rule(m, body), q |-> Rule(qm, QBody), s |-> Rule("", SBody), k |-> Rule("@", KBody), z |-> Rule(qm, KBody),
-                                 q2 |-> Rule("_", AltE(<<Str(<<b>>), Ref("s")>>))], OptTriv(cfg))
-FamOptSq  == {OptG(x, m, "_", cfg) : x \in SqBodies(0), m \in {""}, cfg \in {"none", "ws"}}
-FamOptSk  == {OptG(x, m, qm, cfg) : x \in SkBodies(0), m \in {"", "@", "!", "$"}, qm \in {"_", ""}, cfg \in {"none", "ws", "cm"}}
-\* ---- family "nl": C13 (failures on multi-line inputs: at offset 0, at the end, on an empty line,
-\*      after a trailing line break, inside predicates) ---------------------------------------------
-NlAtoms == {Str(<<a>>), Str(<<nl>>), Str(<<a, nl>>), AnyC, Eoi, Ref("s"), NotP(Str(<<nl>>)), AndP(Str(<<a>>))}
-NlT2(lz) == NlAtoms \cup Un(NlAtoms) \cup Bin(NlAtoms, NlAtoms)
-NlT3(lz) == {SeqE(<<x, Str(<<b>>)>>) : x \in NlT2(0)} \cup {SeqE(<<Star(AltE(<<Str(<<a>>), Str(<<nl>>)>>)), x>>) : x \in NlT2(0)}
-FamNl(lz) == {Merge([r |-> Rule(m, x), s |-> Rule("", SBody)], TrivRules(cfg)) : x \in NlT3(0), m \in {"", "@"}, cfg \in {"none", "ws"}}
-
-\* ---- family "names": rule names that coincide with names the runtime or the generated module uses -------------
-\*   r = { BODY }   n1 = { "a" }   n2 = { "b" ~ "a"? }   (+ silent WHITESPACE in half of them)
-NamePairs == {<<"trivia", "SKIP">>, <<"x1", "X1">>, <<"state", "pairs">>, <<"Rule", "parse">>, <<"re", "inner">>, <<"matched", "rule_frame">>,
-              <<"Pair", "main">>, <<"SKIP", "WS">>, <<"parse_trivia", "Parser">>, <<"children", "tag">>, <<"x1", "x_1">>}
-NameBodies(n1, n2) == LET NA == {Ref(n1), Ref(n2), Str(<<a>>)} IN NA \cup Un(NA) \cup Bin(NA, NA) \cup {SeqE(<<x, y, z>>) : x \in NA, y \in NA, z \in NA}
-NameG(body, n1, n2, ws) == Merge((n1 :> Rule("", Str(<<a>>))) @@ (n2 :> Rule("", SeqE(<<Str(<<b>>), Opt(Str(<<a>>))>>))) @@ [r |-> Rule("", body)],
-                                 IF ws THEN TrivRules("ws") ELSE <<>>)
-FamNames(lz) == UNION {{NameG(x, np[1], np[2], ws) : x \in NameBodies(np[1], np[2]), ws \in BOOLEAN} : np \in NamePairs}
-
-RECURSIVE RefsOf(_)
-RefsOf(e) ==
-  CASE e.k = "ref" -> {e.n}
-    [] e.k \in {"seq", "alt"} -> UNION {RefsOf(e.es[i]) : i \in 1..Len(e.es)}
-    [] e.k \in {"opt", "star", "plus", "exact", "min", "max", "minmax", "and", "not", "push", "tag"} -> RefsOf(e.e)
-    [] OTHER -> {}
-RefsDefined(gr) == \A n \in DOMAIN gr : RefsOf(gr[n].body) \subseteq DOMAIN gr
-FamOptInl(lz) == {x \in {OptG(x, m, qm, cfg) : x \in InlBodies(0), m \in {"", "@", "$"}, qm \in {"_", ""}, cfg \in OptTrivs} : RefsDefined(x)}
-FamOptTrv(lz) == {OptG(x, "", "_", cfg) : x \in TrT2(0), cfg \in {"ws|", "WS|", "cm"}}
-
-RECURSIVE UsesSoi(_)
-UsesSoi(e) ==
-  CASE e.k = "soi" -> TRUE
-    [] e.k \in {"seq", "alt"} -> \E i \in 1..Len(e.es) : UsesSoi(e.es[i])
-    [] e.k \in {"opt", "star", "plus", "exact", "min", "max", "minmax", "and", "not", "push", "tag"} -> UsesSoi(e.e)
-    [] OTHER -> FALSE
-
-Grammars ==
-  CASE Family = "core2"   -> FamCore2(0)
-    [] Family = "core3"   -> FamCore3(0)
-    [] Family = "nl"      -> FamNl(0)
-    [] Family = "names"   -> FamNames(0)
-    [] Family = "optsq"   -> FamOptSq
-    [] Family = "optsk"   -> FamOptSk
-    [] Family = "optinl"  -> FamOptInl(0)
-    [] Family = "opttrv"  -> FamOptTrv(0)
-    [] Family = "core2nosoi" -> {x \in FamCore2(0) : ~UsesSoi(x.r.body)}
-    [] Family = "core3nosoi" -> {x \in FamCore3(0) : ~UsesSoi(x.r.body)}
-    [] Family = "trivia2" -> FamTrivia2(0)
-    [] Family = "trivia3" -> FamTrivia3(0)
-    [] Family = "mods"    -> FamMods(0)
-    [] Family = "stack"   -> FamStackWF(0)
-    [] Family = "stack1"  -> FamStack1(0)
-    [] Family = "stackdeep" -> FamStackDeep(0)
-    [] Family = "tags"    -> FamTags(0)
-
-Alpha ==
-  CASE Family \in {"core2", "core3", "core2nosoi", "core3nosoi"} -> CoreAlpha
-    [] Family \in {"trivia2", "trivia3", "mods"} -> TrAlpha
-    [] Family \in {"stack", "stack1"} -> StkAlpha
-    [] Family = "stackdeep" -> {a, b, c}
-    [] Family = "tags" -> {a, b, sp}
-    [] Family \in {"optsq", "optsk", "optinl"} -> {a, b, sp, A}
-    [] Family = "opttrv" -> {a, b, sp}
-    [] Family = "nl" -> {a, b, nl, sp}
-    [] Family = "names" -> {a, b, sp}
-
-Inputs == Strings(Alpha, MaxLen)
-StartsOf(inp) == IF Starts = "all" THEN 0..Len(inp) ELSE {0}
+EXTENDS FamilyDefs
 
 -----------------------------------------------------------------------------
 VARIABLES g, phase, res
